@@ -230,6 +230,8 @@ def reset():
     ''' Forget everything between cases, including process-wide state inside scapy classes, so
     that a case is a pure function of its own history. '''
     simloop.reset()
+    import dbus
+    dbus.RECORDER.reset()    # also forgets the virtual bus (names, signal subscriptions)
     del RECORDS[:]
     del APP_RECORDS[:]
     for mapping, pristine in _PRISTINE:
